@@ -615,6 +615,199 @@ def hash_iter_sites():
     return sorted(out.items())
 
 
+# ---------------------------------------------------------------- order definitions and sort sites
+
+
+def _self_other_compare(fn, op):
+    """`return self.<X> <op> other.<X>` -> text of X (with `self` written `_`), else None"""
+    body = [st for st in fn.body if not (isinstance(st, ast.Expr) and isinstance(st.value, ast.Constant))]
+    if len(body) != 1 or not isinstance(body[0], ast.Return):
+        return None
+    v = body[0].value
+    if not (isinstance(v, ast.Compare) and len(v.ops) == 1 and isinstance(v.ops[0], op)):
+        return None
+    args = [a.arg for a in fn.args.args]
+    if len(args) != 2:
+        return None
+
+    class Ren(ast.NodeTransformer):
+        def __init__(self, frm):
+            self.frm = frm
+
+        def visit_Name(self, n):
+            return ast.copy_location(ast.Name(id="_", ctx=n.ctx), n) if n.id == self.frm else n
+
+    import copy
+    l = ast.unparse(Ren(args[0]).visit(copy.deepcopy(v.left)))
+    r = ast.unparse(Ren(args[1]).visit(copy.deepcopy(v.comparators[0])))
+    if l != r or not l.startswith("_."):
+        return None
+    return l[2:]
+
+
+def order_defs():
+    """every class of ford/*.py that defines `__lt__`: (file:Class, key compared by __lt__, key compared by
+    __eq__ or '', key hashed by __hash__ or '').  `sorted()` over a set of such objects is independent of the
+    iteration order of the set only if the key distinguishes the members of the set: for graph nodes the set
+    keeps one node per `ident` (__eq__/__hash__), so __lt__ has to compare the same attribute."""
+    out = []
+    for path in sorted((common.REPO / "ford").glob("*.py")):
+        tree = ast.parse(path.read_text())
+        for c in ast.walk(tree):
+            if not isinstance(c, ast.ClassDef):
+                continue
+            meths = {m.name: m for m in c.body if isinstance(m, ast.FunctionDef)}
+            if "__lt__" not in meths:
+                continue
+            lt = _self_other_compare(meths["__lt__"], ast.Lt)
+            if lt is None:
+                raise LookupError(f"{path.name}:{c.name}.__lt__ is not `return self.<key> < other.<key>`: "
+                                  + ast.unparse(meths["__lt__"])[:200])
+            eq = ""
+            if "__eq__" in meths:
+                eq = _self_other_compare(meths["__eq__"], ast.Eq)
+                if eq is None:
+                    raise LookupError(f"{path.name}:{c.name}.__eq__ is not `return self.<key> == other.<key>`")
+            hs = ""
+            if "__hash__" in meths:
+                hits = [ast.unparse(n.args[0]) for n in ast.walk(meths["__hash__"])
+                        if isinstance(n, ast.Call) and isinstance(n.func, ast.Name) and n.func.id == "hash" and n.args]
+                if len(hits) != 1 or not hits[0].startswith("self."):
+                    raise LookupError(f"{path.name}:{c.name}.__hash__ does not hash one attribute of self")
+                hs = hits[0][len("self."):]
+            for other in ("__le__", "__gt__", "__ge__"):
+                if other in meths:
+                    raise LookupError(f"{path.name}:{c.name} defines {other}: not the modelled shape")
+            out.append((f"{path.name}:{c.name}", lt, eq, hs))
+    names = [o[0] for o in out]
+    for need in ("graphs.py:BaseNode", "sourceform.py:FortranBase"):
+        if need not in names:
+            raise LookupError(f"{need}.__lt__ not found")
+    return out
+
+
+FS_ENUM_CALLS = {"listdir", "scandir", "glob", "rglob", "iterdir", "walk", "find_all_files", "iglob"}
+
+
+def sort_sites():
+    """every `sorted(..)`, `.sort(..)`, `min/max(.., key=)` of ford/*.py and every `|sort` filter of the templates:
+    (site, kind of input, key).  Kind of input: `hash` (syntactically a hash-ordered collection), `fs` (a file-system
+    enumeration: listdir / glob / iterdir / walk ...), else `other`.  A stable sort on a key that does not distinguish
+    the elements hands the order of its input on, so every site must either use the natural order of the elements
+    (no key; for objects that is `__lt__`, see order_defs) or have been reviewed."""
+    out = []
+    for path in sorted((common.REPO / "ford").glob("*.py")):
+        tree = ast.parse(path.read_text())
+        set_attrs = _file_set_attrs(tree)
+
+        def visit_fn(fn, qual):
+            c = OrderClass(set_attrs, _local_env(fn, set_attrs))
+
+            def kind(e):
+                if e is None:
+                    return "other"
+                if c.cls(e) == "hash":
+                    return "hash"
+                for x in ast.walk(e):
+                    if isinstance(x, ast.Call):
+                        nm, _m = _call_name(x)
+                        if nm in FS_ENUM_CALLS:
+                            return "fs"
+                return "other"
+
+            for n in ast.walk(fn):
+                if isinstance(n, (ast.FunctionDef, ast.AsyncFunctionDef)) and n is not fn:
+                    continue
+                if not isinstance(n, ast.Call):
+                    continue
+                nm, is_m = _call_name(n)
+                kws = {k.arg: k.value for k in n.keywords if k.arg}
+                if nm == "sorted" and not is_m:
+                    arg = n.args[0] if n.args else None
+                    key = kws.get("key", n.args[1] if len(n.args) > 1 else None)
+                    inner, _ = peel(arg) if arg is not None else (None, False)
+                    out.append((f"{path.name}:{qual}: sorted({ast.unparse(inner) if inner is not None else ''})",
+                                kind(arg), ast.unparse(key) if key is not None else "",
+                                "reverse" if "reverse" in kws else ""))
+                elif nm == "sort" and is_m:
+                    key = kws.get("key")
+                    out.append((f"{path.name}:{qual}: {ast.unparse(n.func.value)}.sort()", kind(n.func.value),
+                                ast.unparse(key) if key is not None else "", "reverse" if "reverse" in kws else ""))
+                elif nm in ("min", "max") and not is_m and "key" in kws:
+                    out.append((f"{path.name}:{qual}: {nm}({ast.unparse(n.args[0]) if n.args else ''})",
+                                kind(n.args[0] if n.args else None), ast.unparse(kws["key"]), ""))
+
+        def walk_defs(node, prefix):
+            for ch in ast.iter_child_nodes(node):
+                if isinstance(ch, (ast.FunctionDef, ast.AsyncFunctionDef)):
+                    visit_fn(ch, prefix + ch.name)
+                    walk_defs(ch, prefix + ch.name + ".")
+                elif isinstance(ch, ast.ClassDef):
+                    walk_defs(ch, prefix + ch.name + ".")
+
+        walk_defs(tree, "")
+    # the templates: `x | sort(...)`, `dictsort`, `groupby`, `unique`
+    import jinja2
+    from jinja2 import nodes as jn
+
+    env = jinja2.Environment()
+    tdir = common.REPO / "ford" / "templates"
+    for tp in sorted(tdir.glob("*.html")):
+        try:
+            tt = env.parse(tp.read_text())
+        except Exception as e:  # a template Jinja cannot parse is somebody else's problem, but say so
+            raise LookupError(f"template {tp.name} does not parse: {e}")
+        for f in tt.find_all(jn.Filter):
+            if f.name in ("sort", "dictsort", "groupby", "unique"):
+                args = [_jinja_src(a) for a in f.args] + [f"{k.key}={_jinja_src(k.value)}" for k in f.kwargs]
+                out.append((f"templates/{tp.name}: {_jinja_src(f.node)}|{f.name}", "other", ", ".join(args), ""))
+    if not any(s[0].startswith("pagetree.py:get_page_tree: sorted(") for s in out):
+        raise LookupError("sort_sites: the sort of the page directory listing in get_page_tree was not found")
+    # one entry per (site, kind, key): several loops over the same expression in one function collapse
+    return sorted(set(out))
+
+
+def _jinja_src(n) -> str:
+    from jinja2 import nodes as jn
+    if isinstance(n, jn.Name):
+        return n.name
+    if isinstance(n, jn.Getattr):
+        return _jinja_src(n.node) + "." + n.attr
+    if isinstance(n, jn.Const):
+        return repr(n.value)
+    if isinstance(n, jn.Filter):
+        return _jinja_src(n.node) + "|" + n.name
+    if isinstance(n, jn.Getitem):
+        return _jinja_src(n.node) + "[..]"
+    return type(n).__name__
+
+
+def page_list_natural():
+    """get_page_tree: `filelist = sorted(os.listdir(topdir))` - the listing of a page directory is sorted by the
+    entry names themselves (no key, not reversed; names in one directory are pairwise different) <=> True.
+    Also checks the shape the model relies on: `index.md` removed, user list merged in front with
+    OrderedDict.fromkeys, dot files and `~` backups skipped."""
+    fn = _find(ast.parse(_src("ford/pagetree.py")), ast.FunctionDef, "get_page_tree")
+    src = ast.unparse(fn)
+    found = None
+    for n in ast.walk(fn):
+        if isinstance(n, ast.Assign) and len(n.targets) == 1 and isinstance(n.targets[0], ast.Name) \
+                and n.targets[0].id == "filelist":
+            found = n.value
+    if found is None:
+        raise LookupError("get_page_tree: assignment to filelist not found")
+    text = ast.unparse(found)
+    if not any(f in text for f in ("listdir", "scandir", "iterdir")):
+        raise LookupError(f"get_page_tree: filelist = {text} is not a directory listing")
+    need = ["filelist.remove('index.md')", "OrderedDict.fromkeys(node.ordered_subpages + filelist)",
+            "if name[0] == '.'", "if name[-1] == '~'", "for name in mergedfilelist"]
+    missing = [x for x in need if x not in src]
+    if missing:
+        raise LookupError(f"get_page_tree no longer has the modelled shape: missing {missing}")
+    natural = text == "sorted(os.listdir(topdir))"
+    return natural, text
+
+
 def lean_chars(s: str) -> str:
     """char-list literal (fast for `decide`, unlike "..".toList)"""
     def ch(c):
@@ -645,6 +838,10 @@ def generate() -> dict:
     inc_ordered, inc_src = inc_dirs_ordered()
     inh_ordered, inh_src = inherited_iter_ordered()
     hsites = hash_iter_sites()
+    odefs = order_defs()
+    ssites = sort_sites()
+    page_natural, page_src = page_list_natural()
+    lt_of = {o[0]: o[1] for o in odefs}
 
     def pairs(xs):
         return lean_list(f"({lean_str(a)}, {lean_str(b)})" for a, b in xs)
@@ -692,6 +889,19 @@ def generate() -> dict:
          "", "/-- ford/*.py: syntactically hash-ordered collections turned into a sequence: (site, goes through sorted()) -/",
          "def hashIterSites : List (Str × Bool) := "
          + lean_list(f"({lean_chars(s)}, {'true' if b else 'false'})" for s, b in hsites),
+         "", "/-- every class of ford/*.py with `__lt__`: (class, key compared by __lt__, key of __eq__ or empty, key of __hash__ or empty) -/",
+         "def orderDefs : List (Str × Str × Str × Str) := "
+         + lean_list(f"({lean_chars(a)}, {lean_chars(b)}, {lean_chars(c_)}, {lean_chars(d)})" for a, b, c_, d in odefs),
+         "", f"/-- BaseNode.__lt__ compares `{lt_of['graphs.py:BaseNode']}`: is that the identifier the node sets are keyed by? -/",
+         f"def nodeLtByIdent : Bool := {'true' if lt_of['graphs.py:BaseNode'] == 'ident' else 'false'}",
+         "", f"/-- FortranBase.__lt__ compares `{lt_of['sourceform.py:FortranBase']}`: the identifier? -/",
+         f"def entityLtByIdent : Bool := {'true' if lt_of['sourceform.py:FortranBase'] == 'ident' else 'false'}",
+         "", "/-- every sorted() / .sort() / keyed min,max of ford/*.py and every sort filter of the templates: "
+         "(site, kind of input hash|fs|other, key or empty, `reverse` or empty) -/",
+         "def sortSites : List (Str × Str × Str × Str) := "
+         + lean_list(f"({lean_chars(a)}, {lean_chars(b)}, {lean_chars(c_)}, {lean_chars(d)})" for a, b, c_, d in ssites),
+         "", f"/-- get_page_tree: `filelist = {page_src}`: sorted by the entry names themselves? -/".replace("-/ ", "- / "),
+         f"def pageListNatural : Bool := {'true' if page_natural else 'false'}",
          "", "end Ford.Gen.C12", ""]
     text = "\n".join(L)
     common.write_if_changed(common.LEAN / "FordModel" / "Generated" / "C12.lean", text)
@@ -701,6 +911,7 @@ def generate() -> dict:
             "nodeIterSites": sites, "serialGraphs": serial, "parallelGraphs": par,
             "incDirsOrdered": inc_ordered, "inheritedIterOrdered": inh_ordered, "hashIterSites": hsites,
             "inheritedIterables": inh_src, "incDirsKept": inc_src,
+            "orderDefs": odefs, "sortSites": ssites, "pageListNatural": page_natural, "pageListing": page_src,
             "find_all_files_returns": find_all_files_returns_set()}
 
 
